@@ -49,7 +49,7 @@ SIM_KINDS = ["hb_promotion", "hb_stopping", "hb_pasha", "hb_cost_promotion", "sy
 
 
 def cases(tier, seed):
-    n_proc, n_sim = (600, 300) if tier == "quick" else (20000, 6000)
+    n_proc, n_sim = (900, 450) if tier == "quick" else (20000, 8000)
     out = []
     for i in range(n_proc):
         out.append({"seed": seed * 3121 + i * 5 + 2, "backend": "proc", "kind": PROC_KINDS[i % len(PROC_KINDS)]})
